@@ -35,6 +35,7 @@ type SpecEnv struct {
 	curLoop  *loopInfo
 	cellSt   *State
 	mapViews map[int][2]*Term // rec-spec map parameters: placeholder id -> (domain, values) arrays
+	atCallSite bool
 	pureIdx  int               // which result of a multi-result pure function is meant (-1: single)
 }
 
@@ -623,8 +624,10 @@ func (env *SpecEnv) tr(x *SExpr) (*Term, types.Type) {
 			if v, ok := env.mapViews[bv.id]; ok {
 				return Select(v[1], iv), t.Elem()
 			}
-			_, _, vc, vs := mapClasses(t)
-			return Select(Select(env.e.getMem(env.cur, vc, vs), bv), iv), t.Elem()
+			// Go semantics: the zero value for an absent key (and for a nil map)
+			d, ds, vc, vs := mapClasses(t)
+			hasK := And(Neq(bv, NilLoc), Select(Select(env.e.getMem(env.cur, d, ds), bv), iv))
+			return Ite(hasK, Select(Select(env.e.getMem(env.cur, vc, vs), bv), iv), zeroOf(t.Elem())), t.Elem()
 		case *types.Array:
 			return Select(bv, iv), t.Elem()
 		case *types.Basic:
@@ -733,6 +736,28 @@ func (env *SpecEnv) binary(x *SExpr) (*Term, types.Type) {
 	case "==>":
 		a, _ := env.tr(x.Args[0])
 		b, _ := env.tr(x.Args[1])
+		// simplify the consequent under the hypotheses (removes the has()-guards of map reads)
+		m := map[*Term]*Term{}
+		var atoms func(t *Term)
+		atoms = func(t *Term) {
+			if t.Op == "app" && t.Name == "and" {
+				for _, c := range t.Args {
+					atoms(c)
+				}
+				return
+			}
+			if t.Op == "app" && t.Name == "not" {
+				m[t.Args[0]] = False
+				return
+			}
+			if t.Op == "app" || t.Op == "var" {
+				m[t] = True
+			}
+		}
+		atoms(a)
+		if len(m) > 0 {
+			b = Subst(b, m)
+		}
 		return Imp(a, b), boolT
 	case "<==>":
 		a, _ := env.tr(x.Args[0])
@@ -938,6 +963,9 @@ func (env *SpecEnv) call(x *SExpr) (*Term, types.Type) {
 				as, ok := env.e.callArgs[args[0].Name]
 				var k int
 				fmt.Sscan(args[1].Name, &k)
+				if (!ok || k >= len(as)) && env.atCallSite {
+					env.fail("@skip: callarg() of a callee is not observable at its call sites")
+				}
 				if !ok || k >= len(as) {
 					env.fail("callarg(%s, %d): no such call/argument before this point", args[0].Name, k)
 				}
@@ -1009,11 +1037,15 @@ func (env *SpecEnv) call(x *SExpr) (*Term, types.Type) {
 					return Ite(Le(a, b), a, b), t
 				}
 				return Ite(Le(a, b), b, a), t
-			case "gf":
-				// gf(obj, name, Type): specification-only field `name` of the object obj points to
+			case "gf", "gfi":
+				// gf(obj, name, Type): specification-only field `name` of the object obj points to;
+				// gfi: the same, attached to an interface value
 				o, _ := env.tr(args[0])
 				t := env.resolveTypeExpr(args[2])
 				cl, so := ghostClass(args[1].Name, t)
+				if fn.Name == "gfi" {
+					cl, so = "GI|"+args[1].Name, arraySort("Iface", sortOf(t))
+				}
 				return Select(env.e.getMem(env.cur, cl, so), o), t
 			case "chr":
 				c, _ := env.tr(args[0])
